@@ -531,6 +531,29 @@ fn fast_decimal_power(index: usize) -> i32 {
     index as i32 * 8 - 348
 }
 
+/// Verification hook (off unless built with `--cfg lexical_verif`): the private
+/// cached-power selection of the Grisu writer, as `(mant, binary exp, decimal k)`.
+#[cfg(lexical_verif)]
+#[doc(hidden)]
+pub fn verif_cached_grisu_power(exp: i32) -> (u64, i32, i32) {
+    let (power, k) = cached_grisu_power(exp);
+    (power.mant, power.exp, k)
+}
+
+/// Verification hook (off unless built with `--cfg lexical_verif`).
+#[cfg(lexical_verif)]
+#[doc(hidden)]
+pub fn verif_fast_binary_power(q: i32) -> i32 {
+    fast_binary_power(q)
+}
+
+/// Verification hook (off unless built with `--cfg lexical_verif`).
+#[cfg(lexical_verif)]
+#[doc(hidden)]
+pub fn verif_fast_decimal_power(index: usize) -> i32 {
+    fast_decimal_power(index)
+}
+
 // GRISU FLOAT
 // -----------
 
